@@ -17,7 +17,7 @@ from .common import Vals, Stubs, StubFuncs, real_env, runtime_error, I, cls_name
 
 MANIFEST_ENTRY = {
     'category': 'proof',
-    'text': "every built-in `execute` inside the engine's subset and every indexing/slicing/membership/iteration/spread/destructuring node is executed symbolically with each argument forking over all value kinds (payloads symbolic): each primitive that can raise a host exception (index, key, int()/float() conversion, division, chr, shift, attribute, iteration, unpacking ...) must be unreachable or converted to CklRuntimeError, the error value must be a language value, loops must terminate; built-ins outside the subset (regex, JSON, date formats, I/O, OS) and all library functions written in Checkerlang are covered by the pool enumeration of the property's own quantifier on the real interpreter (bounded); range() for all int arguments and steps (loop contracts of C19, no exception allowed); every native and node result is a language value (a host None is a failure); every as* conversion and every rendering of every value class for payloads of any length (date texts, objects with a _str_ member of any kind); all iteration, literal, call and comprehension forms over operands of all kinds; loops whose body adds to or removes from the container they run over; comparison functions that return values of any kind",
+    'text': "every built-in `execute` inside the engine's subset and every indexing/slicing/membership/iteration/spread/destructuring node is executed symbolically with each argument forking over all value kinds (payloads symbolic): each primitive that can raise a host exception (index, key, int()/float() conversion, division, chr, shift, attribute, iteration, unpacking ...) must be unreachable or converted to CklRuntimeError, the error value must be a language value, loops must terminate; built-ins outside the subset (regex, JSON, date formats, I/O, OS) and all library functions written in Checkerlang are covered by the pool enumeration of the property's own quantifier on the real interpreter (bounded); range() for all int arguments and steps (loop contracts of C19, no exception allowed); every native and node result is a language value (a host None is a failure); every as* conversion and every rendering of every value class for payloads of any length (date texts, objects with a _str_ member of any kind); all iteration, literal, call and comprehension forms over operands of all kinds; loops whose body adds to or removes from the container they run over; comparison functions that return values of any kind; number results hold the host type of their class (decimal: float, int: int); prototype chains running into a cycle past the start; the same object in two argument positions (stand-in)",
     'note': 'collection arguments are small shapes with symbolic payloads (symbolic-bounded); host recursion/memory limits and astronomically large repetition counts excluded; the list of built-ins proved vs. only enumerated is in the evidence',
     'technique': 'deductive verification: pyvc VCs from the real AST + z3 (kind case split, escape obligations) + bounded pool enumeration (runtime contracts)',
 }
